@@ -9,7 +9,7 @@ from vf import gen
 from vf.core import Clause
 
 PHASES = ['g', 'gas', 'G', 'Gas', 's', 'S', None]
-ADS = ['CO(S)', 'O(S)', 'H(S)']
+ADS = ['CO(S)', 'O(S)', 'H(S)', 'OH(S)']     # suffix-related names on purpose
 
 
 @st.composite
@@ -45,7 +45,7 @@ def corr_case(draw):
     x = {a: draw(st.floats(0, 1)) for a in ADS}
     return {'species': sp, 'phase': phase, 'models': models, 'supplied': supplied,
             'add': draw(st.sampled_from(['default', 'default', True, False])), 'scalar_T': nT == 0, 'T': Ts,
-            'P': draw(gen.logf(1e-3, 1e2)), 'x': x, 'x_global': draw(st.one_of(st.none(), st.floats(0, 1))),
+            'P': draw(gen.logf(1e-3, 1e2)), 'x': x, 'x_order': list(draw(st.permutations(ADS))), 'x_global': draw(st.one_of(st.none(), st.floats(0, 1))),
             'path': draw(st.sampled_from(['direct', 'direct', 'deepcopy', 'dict1', 'dict2', 'dict3', 'json1', 'from_data', 'from_model'])),
             'container': draw(st.sampled_from(['ndarray', 'list']))}
 
@@ -122,6 +122,21 @@ def check_corr(case, ctx):
         ctx.fail('C13.corr/pressure-adjustment-count:%s' % ('gas' if is_gas else 'non-gas'),
                  'phase=%r add=%r user-supplied=%d path=%s: %d attached, expected %d' % (
                      phase, case['add'], user_p, path, n_p, want_p))
+    # --- a species of another phase built afterwards from the very same list object carries none -------------
+    if supplied is not None and user_p == 0:
+        for ph2 in ('s', None):
+            sib = _construct(case, ph2, supplied, 'default')
+            n2 = sum(1 for m in (sib.misc_models or []) if isinstance(m, GasPressureAdj))
+            if n2:
+                ctx.fail('C13.corr/pressure-adjustment-count:non-gas-sibling',
+                         'a phase=%r species built from the list a phase=%r species was built from carries %d '
+                         'pressure adjustment(s)' % (ph2, phase, n2))
+                break
+            s1 = np.ravel(np.asarray(sib.get_SoR(T=case['T'][0], P=case['P'], x=0.0), dtype=float))[0]
+            s0 = np.ravel(np.asarray(sib.get_SoR(T=case['T'][0], P=1.0, x=0.0), dtype=float))[0]
+            if s1 != s0:
+                ctx.fail('C13.corr/non-gas-entropy-depends-on-P', 'phase=%r: S/R %r at P=%r, %r at 1 bar' % (ph2, s1, case['P'], s0))
+                break
     covs = [m for m in case['models'] if m is not None and m['kind'] == 'cov']
     n_cov = sum(1 for m in attached if isinstance(m, PiecewiseCovEffect))
     if n_cov != len(covs):
@@ -130,8 +145,8 @@ def check_corr(case, ctx):
         return
     # --- value = bare + sum of contributions -------------------------------------
     kw = {'P': case['P']}
-    for a, xv in case['x'].items():
-        kw['%s_kwargs' % a] = {'x': xv}
+    for a in case.get('x_order', list(case['x'])):     # keyword order of the per-species blocks is part of the case
+        kw['%s_kwargs' % a] = {'x': case['x'][a]}
     if case['x_global'] is not None:
         kw['x'] = case['x_global']
     Ts = case['T']
